@@ -1,6 +1,153 @@
-//! C15 — not built yet.
-use vcommon::Args;
+//! C15 — message serial numbers are never zero and never repeat.
+//!
+//! Real threads (shuttle's controlled threads) build messages concurrently; every operation on the
+//! process-wide serial counter (hook H4) is a scheduling point, and shuttle's DFS scheduler runs
+//! ALL interleavings of those points, from start values around 0 and the u32 wrap boundary.
 
-pub fn main(_args: &Args) -> i32 {
-    vcommon::machinery_failure("C15: check not built yet")
+use std::sync::{
+    atomic::{AtomicU64, Ordering},
+    Arc, Mutex,
+};
+
+use serde_json::json;
+use vcommon::{Args, Report, Violation};
+use zbus::Message;
+
+fn hook() {
+    TRACE.with(|_| ());
+    if let Some(t) = CUR_TRACE.lock().unwrap().as_mut() {
+        t.push(format!("{:?}", shuttle::thread::current().id()));
+    }
+    shuttle::thread::yield_now();
+}
+
+thread_local! { static TRACE: () = (); }
+static CUR_TRACE: Mutex<Option<Vec<String>>> = Mutex::new(None);
+
+struct Case {
+    threads: usize,
+    per: usize,
+    start: u32,
+}
+
+fn explore(case: &Case, report: &Report, find_trace: Option<&Vec<String>>) -> u64 {
+    let schedules = Arc::new(AtomicU64::new(0));
+    let bad: Arc<Mutex<Vec<(Vec<Vec<u32>>, Vec<String>, String)>>> = Default::default();
+    let outcomes: Arc<Mutex<std::collections::BTreeSet<Vec<Vec<u32>>>>> = Default::default();
+    let (threads, per, start) = (case.threads, case.per, case.start);
+    let (s2, b2, o2) = (schedules.clone(), bad.clone(), outcomes.clone());
+    let want = find_trace.cloned();
+    zbus::verif::set_atomic_hook(Some(hook));
+    shuttle::check_dfs(
+        move || {
+            zbus::verif::SERIAL_NUM.set(start);
+            *CUR_TRACE.lock().unwrap() = Some(vec![]);
+            let hs: Vec<_> = (0..threads)
+                .map(|_| {
+                    shuttle::thread::spawn(move || {
+                        (0..per)
+                            .map(|_| {
+                                Message::signal("/p", "a.b", "S")
+                                    .unwrap()
+                                    .build(&())
+                                    .unwrap()
+                                    .primary_header()
+                                    .serial_num()
+                                    .get()
+                            })
+                            .collect::<Vec<u32>>()
+                    })
+                })
+                .collect();
+            let got: Vec<Vec<u32>> = hs.into_iter().map(|h| h.join().unwrap()).collect();
+            let trace = CUR_TRACE.lock().unwrap().take().unwrap_or_default();
+            s2.fetch_add(1, Ordering::Relaxed);
+            let all: Vec<u32> = got.iter().flatten().cloned().collect();
+            let mut problem = None;
+            if all.iter().any(|s| *s == 0) {
+                problem = Some("zero".to_string());
+            }
+            let mut sorted = all.clone();
+            sorted.sort();
+            sorted.dedup();
+            if sorted.len() != all.len() {
+                problem = Some("repeat".to_string());
+            }
+            if let Some(w) = &want {
+                if *w == trace {
+                    println!("replayed interleaving {trace:?}: serials per thread {got:?} problem={problem:?}");
+                }
+            }
+            o2.lock().unwrap().insert(got.clone());
+            if let Some(p) = problem {
+                let mut b = b2.lock().unwrap();
+                if b.len() < 4 {
+                    b.push((got, trace, p));
+                }
+            }
+        },
+        None,
+    );
+    zbus::verif::set_atomic_hook(None);
+    let n = schedules.load(Ordering::Relaxed);
+    report.eval(n);
+    for o in outcomes.lock().unwrap().iter() {
+        report.nontrivial(vcommon::hash64(&(case.threads, case.per, case.start, o)));
+    }
+    report.outcome_n("distinct-serial-assignments", outcomes.lock().unwrap().len() as u64);
+    for (got, trace, p) in bad.lock().unwrap().iter() {
+        report.violation(
+            Violation::new(
+                if p == "zero" { "never-zero" } else { "never-repeats" },
+                format!(
+                    "{} threads × {} messages from counter value {}: serials per thread {:?} ({p}); interleaving of counter operations by thread: {:?}",
+                    case.threads, case.per, case.start, got, trace
+                ),
+                json!({"threads": case.threads, "per": case.per, "start": case.start, "trace": trace}),
+            )
+            .feat("kind", p),
+        );
+    }
+    n
+}
+
+pub fn main(args: &Args) -> i32 {
+    if let Some(p) = &args.replay {
+        let j = vcommon::load_replay(p);
+        let r = &j["replay"];
+        let case = Case {
+            threads: r["threads"].as_u64().unwrap() as usize,
+            per: r["per"].as_u64().unwrap() as usize,
+            start: r["start"].as_u64().unwrap() as u32,
+        };
+        let trace: Vec<String> = r["trace"].as_array().unwrap().iter().map(|s| s.as_str().unwrap().to_string()).collect();
+        let report = Report::new("C15-replay", args.tier, args.seed, "model_checking");
+        explore(&case, &report, Some(&trace));
+        return 0;
+    }
+    let report = Report::new("C15", args.tier, args.seed, "model_checking");
+    let shapes: Vec<(usize, usize)> = args.tier.pick(vec![(2, 2), (3, 1)], vec![(2, 3), (3, 2), (4, 1)]);
+    let starts = [0u32, 1, u32::MAX - 2, u32::MAX - 1, u32::MAX];
+    let mut total = 0u64;
+    let mut per_case = vec![];
+    for (threads, per) in shapes {
+        for start in starts {
+            let case = Case { threads, per, start };
+            let n = explore(&case, &report, None);
+            per_case.push(json!({"threads": threads, "messages_per_thread": per, "counter_start": start, "interleavings": n}));
+            total += n;
+        }
+    }
+    report.sample(per_case[0].clone());
+    report.sample(per_case[per_case.len() - 1].clone());
+    report.set("cases", json!(per_case));
+    report.set("states", json!(report.evaluations()));
+    report.set("transitions", json!(total));
+    report.set("traces_validated_against_impl", json!(total));
+    report.assume("scheduling points are exactly the operations on the serial counter (hook H4 wraps fetch_add/load/store/swap/compare_exchange/fetch_update); memory orderings are not modelled — the property needs only atomicity of the read-modify-write");
+    report.assume("shuttle's DFS scheduler explores all interleavings of those points exhaustively (no bound)");
+    report.finish(
+        "all interleavings (shuttle DFS, unbounded) of the counter operations of N threads building M messages each, from counter values 0, 1 and around the u32 wrap; distinct_nontrivial = distinct serial assignments observed",
+        true,
+    )
 }
